@@ -685,6 +685,26 @@ func FuzzGitignore(f *testing.F) {
 			_ = m.Match(append([]string{"sub"}, segs...), isDir)
 			return len(ps) > 0
 		}, file, path)
+		guard(t, "FuzzGitignore", "scope", func() bool {
+			// the per-directory evaluation that replaces the flat ReadPatterns list
+			fs := memfs.New()
+			_ = writeFile(fs, ".gitignore", file)
+			_ = writeFile(fs, "sub/.gitignore", file)
+			_ = writeFile(fs, ".git/info/exclude", file)
+			root, err := gitignore.RootPatterns(fs)
+			if err != nil {
+				return false
+			}
+			sc := gitignore.NewScope(root)
+			_ = sc.Match(segs, isDir)
+			sub, err := sc.Descend([]string{"sub"}, func() ([]gitignore.Pattern, error) { return gitignore.DirPatterns(fs, []string{"sub"}) })
+			if err != nil || sub == nil {
+				return false
+			}
+			_ = sub.Excluded()
+			_ = sub.Match(append([]string{"sub"}, segs...), isDir)
+			return len(sub.Patterns()) > 0
+		}, file, path)
 		guard(t, "FuzzGitignore", "pattern", func() bool {
 			line := string(file)
 			if i := strings.IndexByte(line, '\n'); i >= 0 {
